@@ -3,9 +3,17 @@
    read after every frame, having handed the frame to a fresh goroutine — whatever state any
    handler, closure or caller goroutine is in (stalled, blocked, parked anywhere): the statements
    quantify over all states [s] with no condition on other threads.
-   NOT proved (part (b)): deadlock freedom of arbitrary alternating call chains in the closed
-   two-registry system; decided by the nesting workloads of the check only (level note). *)
-From Verif Require Import Base Link LinkProofs.
+   Also proved, over all reachable states: no lost wake-up — a call that waits for its response on a
+   healthy link is registered in the pending-call table under its own id on the entry its waiter is
+   blocked on ([waiting_call_is_registered]), and a response frame with that id, once delivered,
+   completes the call by at most six steps of the response reader, its publisher, the call's waiter
+   and the caller — whatever any handler, closure or other call is doing ([response_completes_call]).
+   Together with [request_loop_never_waits_for_handlers] and C01's callee theorem every hop of an
+   alternating chain needs only its own goroutines.
+   NOT proved (part (b)): the composition of these per-endpoint progress theorems into deadlock
+   freedom of arbitrary alternating chains in the closed two-registry system (needs application
+   handlers and the network as a model); decided by the nesting workloads of the check. *)
+From Verif Require Import Base Link LinkProofs LinkInvB LinkInvK.
 
 Theorem request_loop_never_waits_for_handlers :
   forall calls s f arg,
@@ -51,3 +59,39 @@ Proof.
   rewrite tget_tset_other by discriminate. apply tget_tset_same.
 Qed.
 Print Assumptions each_request_gets_its_own_handler.
+
+Theorem waiting_call_is_registered :
+  forall calls s i ent,
+    lreachable fixed calls s -> bclosed s = false -> tget (threads s) (TWaiter i) = Some (WBlocked ent) ->
+    lookupN (N.of_nat i) (tbl s) = Some ent.
+Proof. exact waiting_call_is_registered_lemma. Qed.
+Print Assumptions waiting_call_is_registered.
+
+Theorem response_completes_call :
+  forall calls s i ent x e,
+    lreachable fixed calls s -> bclosed s = false ->
+    tget (threads s) TResLoop = Some RLReading -> memN 0%N (cancelled s) = false -> f_unmarshal (flt s) = None ->
+    tget (threads s) (TCall i) = Some CBlocked -> tget (threads s) (TWaiter i) = Some (WBlocked ent) ->
+    exists cs s' v er,
+      length cs <= 6 /\
+      Forall (fun c => fst c = Env (EDeliverRes (N.of_nat i) x e) \/ fst c = Run (TPub (npub s)) \/
+                       fst c = Run (TWaiter i) \/ fst c = Run (TCall i)) cs /\
+      lrun fixed calls s cs = Some s' /\
+      tget (threads s') (TCall i) = Some (CReturned v er) /\
+      (er = None -> e = None).
+Proof. exact response_completes_call_lemma. Qed.
+Print Assumptions response_completes_call.
+
+(* non-vacuity: a call waits for its response while a handler of the same link is stalled *)
+Example waiting_call_with_stalled_handler :
+  exists s, lreachable fixed [mkCall 1 2 false 10] s /\ bclosed s = false /\
+            tget (threads s) TResLoop = Some RLReading /\ memN 0%N (cancelled s) = false /\ f_unmarshal (flt s) = None /\
+            tget (threads s) (TCall 0) = Some CBlocked /\ tget (threads s) (TWaiter 0) = Some (WBlocked 0) /\
+            tget (threads s) (THandler 0) = Some (HGate 5%N).
+Proof.
+  eexists. split.
+  - exists [(Run TSetup, 0); (Env (EStart 0), 0); (Run (TCall 0), 0); (Run (TWaiter 0), 0);
+            (Env (EDeliverReq FGated 5%N), 0); (Run (TReq 0), 0); (Run (THandler 0), 0)].
+    vm_compute. reflexivity.
+  - repeat split.
+Qed.
